@@ -42,7 +42,7 @@ def check(ctx, tier):
     W.report_wrappers(ctx, tk, "C05.b")
     tk.purity("C05.p", [ctx.func(q) for q in ['raggedarray.RaggedArray.sum', 'raggedarray.RaggedArray.prod', 'raggedarray.RaggedArray.mean', 'raggedarray.RaggedArray.all', 'raggedarray.RaggedArray.any', 'raggedarray.RaggedArray.max', 'raggedarray.RaggedArray.min', 'raggedarray.RaggedArray.argmax', 'raggedarray.RaggedArray.argmin', 'raggedarray.RaggedArray._reduce']], "the operation does not write into its operands' buffers", content_only=True)
     from .. import hazards as _hz, scopes as _sc
-    _hz.generic(ctx, tk, "C05.z", _sc.scope(tk, "C05", depth=2))
+    _hz.generic(ctx, tk, "C05.z", _sc.scope(tk, "C05", depth=1))
     _hz.h19_raw_identity_store(ctx, tk, "C05.z/H19", [ctx.func("raggedarray.RaggedArray._reduce")])
     return {}
 
